@@ -1152,7 +1152,7 @@ pub unsafe extern "C" fn authorizer_builder_build(
     if builder.is_none() {
         update_last_error(Error::InvalidArgument);
     }
-    let builder = builder.unwrap();
+    let builder = builder?;
     builder
         .0
         .clone()
@@ -1161,6 +1161,7 @@ pub unsafe extern "C" fn authorizer_builder_build(
         .build(&token.0)
         .map(Authorizer)
         .map(Box::new)
+        .map_err(|e| update_last_error(Error::Biscuit(e)))
         .ok()
 }
 
@@ -1174,7 +1175,7 @@ pub unsafe extern "C" fn authorizer_builder_build_unauthenticated(
     if builder.is_none() {
         update_last_error(Error::InvalidArgument);
     }
-    let builder = builder.unwrap();
+    let builder = builder?;
     builder
         .0
         .clone()
@@ -1183,6 +1184,7 @@ pub unsafe extern "C" fn authorizer_builder_build_unauthenticated(
         .build_unauthenticated()
         .map(Authorizer)
         .map(Box::new)
+        .map_err(|e| update_last_error(Error::Biscuit(e)))
         .ok()
 }
 
